@@ -381,6 +381,10 @@ func expr(v ssa.Value, d int) string {
 		return "closure(" + FuncName(x.Fn.(*ssa.Function)) + ")"
 	case *ssa.Builtin:
 		return x.Name()
+	case *ssa.Next:
+		return "next(" + expr(x.Iter, d+1) + ")"
+	case *ssa.Range:
+		return "range " + expr(x.X, d+1)
 	}
 	return v.Name()
 }
@@ -438,4 +442,20 @@ func MakeLen(v ssa.Value) (int64, bool) {
 		}
 	}
 	return 0, false
+}
+
+// GuardsOnEdge returns the conditions known to hold when control passes
+// from pred to succ (the guards of pred plus pred's own branch decision).
+func GuardsOnEdge(pred, succ *ssa.BasicBlock) []Guard {
+	gs := append([]Guard(nil), GuardsOf(pred)...)
+	if len(pred.Instrs) > 0 {
+		if iff, ok := pred.Instrs[len(pred.Instrs)-1].(*ssa.If); ok && pred.Succs[0] != pred.Succs[1] {
+			if succ == pred.Succs[0] {
+				gs = append(gs, Guard{iff.Cond, true, iff})
+			} else if succ == pred.Succs[1] {
+				gs = append(gs, Guard{iff.Cond, false, iff})
+			}
+		}
+	}
+	return gs
 }
